@@ -460,7 +460,7 @@ def _timediff_image(ck, tsd_arr, tsd_img):
                                          for sp in (tspec, sspec))
                         ck.count(("tsd-img", shape, tuple(in_names), tuple(out_names), tuple(in2out), how, tspec, sspec),
                                  bucket="tsd:image:%s" % order)
-                        rep = {"shape": list(shape), "input_names": in_names, "output_names": out_names,
+                        rep = {"shape": list(arr.shape), "input_names": in_names, "output_names": out_names,
                                "in2out": in2out, "affine": aff.tolist(), "made_by": how,
                                "time_axis": tspec, "slice_axis": sspec, "array_time_axis": ta, "array_slice_axis": sa,
                                "data": arr.ravel().tolist()}
@@ -487,7 +487,7 @@ def _timediff_image(ck, tsd_arr, tsd_img):
                                         "squared difference statistic over the named axes (array axes %d, %d)"
                                         % (tspec, sspec, key, ta, sa), rep)
                         if all(hasattr(r[key], "coordmap") for key in TSD_KEYS[3:]):
-                            wrap_cases.append((in_names, out_names, in2out, shape, arr, tspec, sspec, r,
+                            wrap_cases.append((in_names, out_names, in2out, tuple(arr.shape), arr, tspec, sspec, r,
                                                list(r["diff2_mean_vol"].coordmap.function_domain.coord_names),
                                                list(r["diff2_mean_vol"].coordmap.function_range.coord_names), order))
                         exp_names = tuple(nm for k, nm in enumerate(in_names) if k != ta)
